@@ -420,3 +420,6 @@ UNITS += shared("C06", "contracts.c03", "ArgumentParser.parse_known_args")
 # a `key+` entry is consumed only when the key has an action that supports appending: on any other key it stays for check_values to refuse
 from contracts.appends_unit import apply_appends_unit  # noqa: E402
 UNITS.append(apply_appends_unit("C06"))
+
+from contracts.share import carried as _carried  # noqa: E402
+UNITS += _carried("C06")
